@@ -76,6 +76,17 @@ def build(sc, d):
                     nc.variables["pn"][:] = nc.variables["pn"][:] * 0.5
         if "grid" in conf2 and "filename" in conf2["grid"]:
             conf2["grid"]["filename"] = str(d / "forcing_10.nc")
+    if sc.get("_gridfile"):
+        # a grid file of its own (the geometry of the forcing files with another metric), named in the configuration: in the legacy
+        # vocabulary under `files.gridfile`
+        import shutil
+        from netCDF4 import Dataset
+        gf = d / "grid_only.nc"
+        shutil.copy(sorted(globmod.glob(str(d / "forcing_*.nc")))[0], gf)
+        with Dataset(gf, "a") as nc:
+            nc.variables["pm"][:] = nc.variables["pm"][:] * 0.5
+            nc.variables["pn"][:] = nc.variables["pn"][:] * 0.5
+        conf2["grid"] = dict(module="ladim.ROMS", filename=str(gf))
     # release file without header for the v1 spelling (names come from the configuration)
     names = ["release_time", "mult", "X", "Y", "Z"]
     rows = [dict(release_time=scen.sim2time(sc, x["step"]), mult=x["mult"], X=x["X"], Y=x["Y"], Z=x["Z"]) for x in sc["rows"]]
@@ -103,6 +114,8 @@ def build(sc, d):
     if sc["rev"]:
         v1 = None   # time reversal is not in the v1 vocabulary
         return conf2, v1
+    if sc.get("_gridfile"):
+        v1["files"]["gridfile"] = conf2["grid"]["filename"]
     if sc["subgrid"]:
         v1["gridforce"]["subgrid"] = list(sc["subgrid"])
         v1["gridforce"]["gridfile"] = conf2["grid"]["filename"]
@@ -176,7 +189,7 @@ def run_case(sc):
         if v1 is not None:
             w = copy.deepcopy(v1); w["files"]["output_file"] = str(d / "out_v1.nc")
             spellings["v1yaml"] = ("yaml", w)
-        if not sc["subgrid"]:
+        if not sc["subgrid"] and not sc.get("_gridfile"):
             g = copy.deepcopy(conf2); g.pop("grid", None); g["output"]["filename"] = str(d / "out_nogrid.nc")
             spellings["v2_no_grid_section"] = ("yaml", g)
         # the version key in its spellings (2, 2.0, "2.0", "2"); all mean version 2
@@ -202,7 +215,7 @@ def run_case(sc):
         e.setdefault("grid", dict(module="ladim.ROMS", filename=sorted(globmod.glob(str(d / "forcing_*.nc")))[0]))
         spellings["v2_explicit_sections"] = ("yaml", e)
         # a forcing module that is NOT the built-in one: the defaulted grid must come from it
-        if not sc["subgrid"]:
+        if not sc["subgrid"] and not sc.get("_gridfile"):
             (d / "halfmetric_roms.py").write_text(
                 "from ladim.ROMS import Grid as _G, Forcing\n"
                 "class Grid(_G):\n"
@@ -417,6 +430,11 @@ def run(ctx: Ctx):
             sc = scen.gen(ctx.seed * 100000 + 18000 + k, rev=False, layout="sparse", numrec=0, vertadv=False, kills=False, files=2, nsteps=6, period=1,
                           speed=1.0, land=False, subgrid="none")
             sc["_unpadded"] = True
+        if k % 8 == 2:
+            # a grid file of its own, with another metric than the forcing files (see build)
+            sc = scen.gen(ctx.seed * 100000 + 18000 + k, rev=False, layout="sparse", numrec=0, vertadv=False, kills=False, files=[1, 2][(k // 8) % 2], nsteps=6,
+                          period=1, speed=1.0, land=False, subgrid="none")
+            sc["_gridfile"] = True
         if k % 3 == 0:
             sc["_D"] = 0.0
         cases.append(sc)
@@ -469,7 +487,7 @@ def run(ctx: Ctx):
     # records per file, release mode and subgrid is scrambled on purpose — the model must take all of that from the configuration
     reqs, meta = [], []
     for sc, g in zip(cases, res):
-        if sc.get("_D"):
+        if sc.get("_D") or sc.get("_gridfile"):        # (the request carries the metric of the forcing files)
             continue
         for name in ("v2yaml", "v2toml", "v1yaml", "v2_respelled", "v2_no_grid_section", "v2_explicit_sections"):
             if name not in g["runs"] or name not in g["trees"]:
